@@ -188,6 +188,13 @@ func runAttest(args []string) []string {
 	tbs, sig := hx.UnHex(args[2]), hx.UnHex(args[3])
 	f9 := f9For(kind, keyS)
 	att := &x509.Certificate{SignatureAlgorithm: x509.SignatureAlgorithm(algo), RawTBSCertificate: tbs, Signature: sig}
+	// everything else a slot certificate carries is what its sender chose: dated inside the device
+	// certificate's own validity window, issued in the device certificate's name
+	att.NotBefore, att.NotAfter = f9.NotBefore.Add(time.Second), f9.NotAfter
+	att.Issuer, att.RawIssuer, att.AuthorityKeyId = f9.Subject, f9.RawSubject, f9.SubjectKeyId
+	att.Subject = pkix.Name{CommonName: "YubiKey PIV Attestation 9a"}
+	att.PublicKey, att.PublicKeyAlgorithm = f9.PublicKey, f9.PublicKeyAlgorithm
+	att.KeyUsage, att.BasicConstraintsValid, att.IsCA = x509.KeyUsageCertSign|x509.KeyUsageDigitalSignature, true, true
 	// one attestor for the whole run, as in the RA (it is built once from the configured pool):
 	// what it did for earlier pairs must not change its verdict on this one
 	if theAttestor == nil {
@@ -468,6 +475,38 @@ func genModHex(g *hx.Gen, out *hx.Out) {
 				v[0], v[1] = 2, byte(l-2)
 			}
 			emit(oid + "=" + hx.Hex(v))
+		}
+	}
+	// DER-shaped values: tag x declared length (short form below / at / above the content length, long
+	// form) x content length 0..6 x leading content bytes at the sign-padding boundaries
+	edge := []byte{0x00, 0x7f, 0x80, 0xff}
+	for n := 0; n <= 6; n++ {
+		for _, tag := range []byte{2, 4, 0x82} {
+			var heads [][]byte
+			heads = append(heads, []byte{tag, byte(n)}, []byte{tag, byte(n + 1)}, []byte{tag, 0x81, byte(n)})
+			if n > 0 {
+				heads = append(heads, []byte{tag, byte(n - 1)})
+			}
+			for _, h := range heads {
+				for _, b0 := range edge {
+					for _, b1 := range edge {
+						c := g.Bytes(n)
+						if n > 0 {
+							c[0] = b0
+						}
+						if n > 1 {
+							c[1] = b1
+						}
+						emit(oid + "=" + hx.Hex(append(append([]byte{}, h...), c...)))
+						if n == 0 {
+							break
+						}
+					}
+					if n == 0 {
+						break
+					}
+				}
+			}
 		}
 	}
 	// a valid serial extension next to other extensions whose identifier is close to its own
